@@ -105,91 +105,136 @@ example : (paramsFromCmd av0 (args0 ["vms=vm1,vm2", "only=minimal", "vms=vm2"]))
 
 /-! ## unknown object restrictions -/
 
-/-- An `only_X=`/`no_X=` argument is rejected when `X` is not `nets…` and **no available vm name is a
-prefix of `X`**.  The full statement (`X` is not exactly an available vm or `nets` ⇒ rejected) is false
-for the code as it is: the key is matched with `re.match(f"(only|no)_{vm}", key)`, a prefix match —
-see the witnesses below (candidate finding `object-restr-prefix-match`). -/
-theorem unknown_object_restr_rejected_partial (av : Avail) (args : List Str) (a k v : Str)
+/-- An `only_X=`/`no_X=` argument whose object `X` is neither `nets` nor (exactly) an available vm is
+rejected, wherever it stands.  (Full since /repo 6e359ac; before, keys were matched by prefix and
+`only_vm10=x` was read as a restriction `only0 x` of vm1.) -/
+theorem unknown_object_restr_rejected (av : Avail) (args : List Str) (a k v : Str)
     (hmem : a ∈ args) (hkv : splitArg a = some (k, v)) (hobj : isObjKey k = true)
-    (hnn : netsKey k = false) (hnone : av.vms.all (fun vm => !vmKey k vm) = true) :
+    (hunknown : ∀ x, (k = kOnlyU ++ x ∨ k = kNoU ++ x) → x ≠ kNets ∧ x ∉ av.vms) :
     ∃ e, paramsFromCmd av args = .error e := by
   apply paramsFromCmd_error_of_loop
   apply loop_rejects (a := a) _ args _ hmem
   intro st
+  have hnn : netsKey k = false := by
+    rw [Bool.eq_false_iff]
+    intro h
+    simp only [netsKey, Bool.or_eq_true, beq_iff_eq] at h
+    rcases h with h | h
+    · exact (hunknown kNets (Or.inl (by rw [h]; rfl))).1 rfl
+    · exact (hunknown kNets (Or.inr (by rw [h]; rfl))).1 rfl
   have hf : av.vms.find? (vmKey k) = none := by
     rw [List.find?_eq_none]
-    intro x hx
-    have := (List.all_eq_true.mp hnone) x hx
-    simpa using this
+    intro x hx h
+    simp only [vmKey, Bool.or_eq_true, beq_iff_eq] at h
+    rcases h with h | h
+    · exact (hunknown x (Or.inl h)).2 hx
+    · exact (hunknown x (Or.inr h)).2 hx
   have hc : classify av a = .badObj k v :=
     classify_badObj_iff.mpr ⟨hkv, isObjKey_not_test k hobj, hobj, hnn, hf⟩
   exact ⟨.valueError, by rw [step_eq, hc]; rfl⟩
 
-example : ∃ e, paramsFromCmd av0 (args0 ["only_something=restr"]) = .error e :=
-  unknown_object_restr_rejected_partial av0 _ "only_something=restr".toList "only_something".toList
-    "restr".toList (by decide) (by decide) (by decide) (by decide) (by decide)
+example : paramsFromCmd av0 (args0 ["only_something=restr"]) = .error .valueError := by decide
 example : paramsFromCmd av0 (args0 ["no_vm4=Fedora"]) = .error .valueError := by decide
-/-- witness that the full statement fails: `vm10` is not an available vm, the argument is accepted and
-vm1 gets the corrupted restriction line `only0 x` -/
-example : (paramsFromCmd av0 (args0 ["only_vm10=x"])).toOption.map (·.availableVms)
-    = some [("vm1".toList, [("only0".toList, "x".toList)]), ("vm2".toList, [])] := by decide
-/-- and `only_vm1_vm1=Fedora` is silently read as `only_vm1=Fedora` -/
-example : (paramsFromCmd av0 (args0 ["only_vm1_vm1=Fedora"])).toOption.map (·.availableVms)
-    = (paramsFromCmd av0 (args0 ["only_vm1=Fedora"])).toOption.map (·.availableVms) := by decide
+/-- regression examples of the pre-fix behaviour (prefix match): now rejected -/
+example : paramsFromCmd av0 (args0 ["only_vm10=x"]) = .error .valueError := by decide
+example : paramsFromCmd av0 (args0 ["only_vm1_vm1=Fedora"]) = .error .valueError := by decide
+example : paramsFromCmd av0 (args0 ["only_nets_nets=net1"]) = .error .valueError := by decide
+/-- the hypotheses are met by `only_vm10=x` on `av0` (vms vm1, vm2) -/
+example : ∃ e, paramsFromCmd av0 (args0 ["aaa=b", "only_vm10=x"]) = .error e :=
+  unknown_object_restr_rejected av0 _ "only_vm10=x".toList "only_vm10".toList "x".toList
+    (by decide) (by decide) (by decide)
+    (by
+      intro x hx
+      have hx' : x = "vm10".toList := by
+        rcases hx with h | h
+        · have : "only_vm10".toList = kOnlyU ++ "vm10".toList := by decide
+          rw [this] at h; exact (List.append_cancel_left h).symm
+        · simp [kNoU] at h
+      subst hx'
+      exact ⟨by decide, by decide⟩)
+/-- and exact keys are still accepted -/
+example : (paramsFromCmd av0 (args0 ["only_vm1=Fedora"])).toOption.map (·.availableVms)
+    = some [("vm1".toList, [("only".toList, "Fedora".toList)]), ("vm2".toList, [])] := by decide
 
 /-! ## conflicting net selections -/
 
-/-- `nets=` *after* a non-empty `only_nets…=`/`no_nets…=` (with no other nets restriction in between) is
-rejected.  The full statement — any list containing both is rejected — is false for the code as it
-is: the conflict is only checked in the `nets=` branch (candidate finding F6, `nets-conflict-order`). -/
-theorem nets_conflict_rejected_partial (av : Avail) (pre mid post : List Str) (r n kr vr vn : Str)
-    (hr : splitArg r = some (kr, vr)) (hkr : netsKey kr = true) (hvr : vr ≠ [])
-    (hmid : ∀ m ∈ mid, ∀ k v, splitArg m = some (k, v) → netsKey k = false)
+/-- An explicit `nets=` and a non-empty `only_nets=`/`no_nets=` are rejected **in either order**
+(full since /repo 893de05; before, `nets=net1 only_nets=net2` silently yielded `nets = net2`).
+For the order restriction-first the restriction must still be in force when `nets=` is read, i.e. not
+withdrawn by a later `only_nets=`/`no_nets=` with an *empty* value (the documented way to lift a
+restriction, see the example below); for the order `nets=`-first there is no side condition. -/
+theorem nets_conflict_rejected (av : Avail) (pre mid post : List Str) (r n kr vr vn : Str)
+    (hr : splitArg r = some (kr, vr)) (hkr : kr = kOnlyNets ∨ kr = kNoNets) (hvr : vr ≠ [])
     (hn : splitArg n = some (kNets, vn)) :
-    ∃ e, paramsFromCmd av (pre ++ r :: (mid ++ n :: post)) = .error e := by
-  apply paramsFromCmd_error_of_loop
-  cases hl : loop av (St.init av) (pre ++ r :: (mid ++ n :: post)) with
-  | error e => exact ⟨e, rfl⟩
-  | ok st' =>
-    exfalso
-    obtain ⟨st1, _, h2⟩ := loop_ok_append.mp hl
-    obtain ⟨st2, hs2, h3⟩ := loop_ok_cons.mp h2
-    obtain ⟨st3, h4, h5⟩ := loop_ok_append.mp h3
-    obtain ⟨st4, hs4, _⟩ := loop_ok_cons.mp h5
-    have c2 : classify av r = .netsR kr vr := classify_netsR_iff.mpr ⟨hr, hkr⟩
-    have n2 : st2.netsStr = netsOf kr vr := by
-      have := stepC_netsStr st1 st2 _ (stepC_ok_of_step hs2)
-      rw [this, c2]
-    have n3 : st3.netsStr = st2.netsStr := by
-      apply loop_netsStr_keep mid st2 st3 _ h4
-      intro m hm k v hc
-      obtain ⟨hs, hk⟩ := classify_netsR_iff.mp hc
-      have := hmid m hm k v hs
-      rw [this] at hk; cases hk
-    have c4 : classify av n = .nets vn := classify_nets_iff.mpr hn
-    have hs4' := stepC_ok_of_step hs4
-    have hsome : st3.netsStr.isSome = true := by
-      rw [n3, n2]
-      have : vr.isEmpty = false := by simpa using hvr
-      simp [netsOf, this]
-    simp [c4, stepC, hsome] at hs4'
+    ((∀ m ∈ mid, ∀ k, splitArg m = some (k, []) → k ≠ kOnlyNets ∧ k ≠ kNoNets) →
+      ∃ e, paramsFromCmd av (pre ++ r :: (mid ++ n :: post)) = .error e) ∧
+    (∃ e, paramsFromCmd av (pre ++ n :: (mid ++ r :: post)) = .error e) := by
+  have hnk : netsKey kr = true := by
+    simp only [netsKey, Bool.or_eq_true, beq_iff_eq]; exact hkr
+  have c_r : classify av r = .netsR kr vr := classify_netsR_iff.mpr ⟨hr, hnk⟩
+  have c_n : classify av n = .nets vn := classify_nets_iff.mpr hn
+  constructor
+  · intro hmid
+    apply paramsFromCmd_error_of_loop
+    cases hl : loop av (St.init av) (pre ++ r :: (mid ++ n :: post)) with
+    | error e => exact ⟨e, rfl⟩
+    | ok st' =>
+      exfalso
+      obtain ⟨st1, _, h2⟩ := loop_ok_append.mp hl
+      obtain ⟨st2, hs2, h3⟩ := loop_ok_cons.mp h2
+      obtain ⟨st3, h4, h5⟩ := loop_ok_append.mp h3
+      obtain ⟨st4, hs4, _⟩ := loop_ok_cons.mp h5
+      have n2 : st2.netsStr.isSome = true := by
+        rw [stepC_netsStr st1 st2 _ (stepC_ok_of_step hs2), c_r]
+        exact netsOf_isSome hvr
+      have n3 : st3.netsStr.isSome = true := by
+        apply loop_netsStr_some mid st2 st3 _ n2 h4
+        intro m hm k hc
+        obtain ⟨hs, hk⟩ := classify_netsR_iff.mp hc
+        simp only [netsKey, Bool.or_eq_true, beq_iff_eq] at hk
+        obtain ⟨h1, h2⟩ := hmid m hm k hs
+        rcases hk with hk | hk
+        · exact h1 hk
+        · exact h2 hk
+      have hs4' := stepC_ok_of_step hs4
+      simp [c_n, stepC, n3] at hs4'
+  · apply paramsFromCmd_error_of_loop
+    cases hl : loop av (St.init av) (pre ++ n :: (mid ++ r :: post)) with
+    | error e => exact ⟨e, rfl⟩
+    | ok st' =>
+      exfalso
+      obtain ⟨st1, _, h2⟩ := loop_ok_append.mp hl
+      obtain ⟨st2, hs2, h3⟩ := loop_ok_cons.mp h2
+      obtain ⟨st3, h4, h5⟩ := loop_ok_append.mp h3
+      obtain ⟨st4, hs4, _⟩ := loop_ok_cons.mp h5
+      have e2 : st2.explicitNets = true := by
+        rw [stepC_explicit st1 st2 _ (stepC_ok_of_step hs2), c_n]
+      have e3 : st3.explicitNets = true := loop_explicit_mono mid st2 st3 e2 h4
+      have hs4' := stepC_ok_of_step hs4
+      rw [c_r] at hs4'
+      obtain ⟨hno, _⟩ := stepC_netsR_ok hs4'
+      rw [netsOf_isSome hvr, e3] at hno
+      cases hno
 
-example : ∃ e, paramsFromCmd av0 (args0 ["only_nets=net2", "aaa=bbb", "nets=net1"]) = .error e :=
-  nets_conflict_rejected_partial av0 [] [ "aaa=bbb".toList ] [] "only_nets=net2".toList "nets=net1".toList
-    "only_nets".toList "net2".toList "net1".toList (by decide) (by decide) (by decide)
-    (by intro m hm k v hs
-        simp only [List.mem_singleton] at hm
-        subst hm
-        have : splitArg "aaa=bbb".toList = some ("aaa".toList, "bbb".toList) := by decide
-        rw [this] at hs; cases hs; decide)
-    (by decide)
-/-- witness that the full statement fails (F6): the reverse order is accepted and the explicit suffix
-`net1` is silently replaced by `net2` -/
-example : (paramsFromCmd av0 (args0 ["nets=net1", "only_nets=net2"])).toOption.map (·.paramDict)
-    = some [("nets".toList, "net2".toList)] := by decide
-example : paramsFromCmd av0 (args0 ["only_nets=net2", "nets=net1"]) = .error .valueError := by decide
-/-- an empty nets restriction is no restriction (so no conflict) -/
+example : paramsFromCmd av0 (args0 ["only_nets=net2", "aaa=bbb", "nets=net1"]) = .error .valueError := by decide
+/-- regression example of the pre-fix behaviour (F6): the reverse order is rejected as well now -/
+example : paramsFromCmd av0 (args0 ["nets=net1", "aaa=bbb", "only_nets=net2"]) = .error .valueError := by decide
+example : paramsFromCmd av0 (args0 ["nets=", "no_nets=net2"]) = .error .valueError := by decide
+/-- the hypotheses of both parts are met -/
+example : (∃ e, paramsFromCmd av0 (args0 ["only_nets=net2", "aaa=bbb", "nets=net1"]) = .error e) ∧
+    (∃ e, paramsFromCmd av0 (args0 ["nets=net1", "aaa=bbb", "only_nets=net2"]) = .error e) := by
+  have h := nets_conflict_rejected av0 [] [ "aaa=bbb".toList ] [] "only_nets=net2".toList "nets=net1".toList
+    "only_nets".toList "net2".toList "net1".toList (by decide) (Or.inl (by decide)) (by decide) (by decide)
+  refine ⟨h.1 ?_, h.2⟩
+  intro m hm k hs
+  simp only [List.mem_singleton] at hm
+  subst hm
+  have : splitArg "aaa=bbb".toList = some ("aaa".toList, "bbb".toList) := by decide
+  rw [this] at hs; cases hs
+/-- an empty nets restriction is no restriction: it conflicts with nothing and withdraws an earlier one -/
 example : (paramsFromCmd av0 (args0 ["only_nets=", "nets=net1"])).toOption.map (·.paramDict)
+    = some [("nets".toList, "net1".toList)] := by decide
+example : (paramsFromCmd av0 (args0 ["only_nets=net2", "only_nets=", "nets=net1"])).toOption.map (·.paramDict)
     = some [("nets".toList, "net1".toList)] := by decide
 
 /-! ## the default primary restriction -/
@@ -449,8 +494,8 @@ theorem order_irrelevant (u : List Name) (ls ls' : List Line) (h : ls.Perm ls') 
 parameter dictionary (as a map), then they produce permuted restriction lines for the tests and for
 every vm, and select exactly the same tests.
 *Partial*: acceptance of one order is not derived from acceptance of the other, and equality of the
-dictionaries is a hypothesis — both fail for `nets=` against `only_nets=` (finding F6) and the
-dictionary is last-wins for a repeated key; for lists without such pairs the two hypotheses are checked
+dictionaries is a hypothesis — the dictionary is last-wins for a repeated key (and for `nets=` against an
+empty `only_nets=`); for lists without such pairs the two hypotheses are checked
 implementation against implementation by the harness (`equiv.order`). -/
 theorem order_irrelevant_args_partial (av : Avail) (args args' : List Str) (c c' : Config)
     (hperm : args.Perm args')
